@@ -20,6 +20,7 @@ import Proofs.EndToEndGrid
 import Proofs.EndToEndText
 import Props.C03
 import Proofs.ProxySrc
+import Proofs.SubsetAny
 namespace Pydap.C02
 open Pydap
 
@@ -485,6 +486,195 @@ example : E2E.TextOk (E2E.answerDs "ds".toList "a".toList ["m0".toList] .int16 [
   exact ⟨by decide, by decide⟩
 example : Dds.NameOk "ds".toList ∧ Dds.NameOk "a".toList ∧ Dds.NameOk "m0".toList :=
   ⟨⟨by decide, by decide⟩, ⟨by decide, by decide⟩, ⟨by decide, by decide⟩⟩
+
+/-! ### the property's first two sentences as ONE statement over every basic index (round 7)
+
+  `AtMostOneEll idx` is numpy's own condition on a tuple of integers, slices and `Ellipsis` (a second `Ellipsis` is an
+  `IndexError`); `explicitAxes idx ≤ rank` likewise (more entries than axes is an `IndexError`); `npExpandIdx` is numpy's
+  expansion (the tuple split at its Ellipsis, C03's `npExpand`).  `ValidList … (npExpandIdx …)` is the property's domain:
+  every URL hyperslab non-negative with step ≥ 1, every entry relative to the PRE-SLICED axis an integer in `[-L, L)` or a
+  slice with bounds ≥ `-L` (no upper bound), step ≥ 1, and a non-empty selection.  The theorem replaces the four
+  case-split statements `C02_index(_ellipsis)`, `C02_preconstraint(_ellipsis)`, `C02_e2e_array(_ellipsis)` as the
+  carrier of the clause (they are kept: DESIGN/MANIFEST name them, and they are its two cases). -/
+
+/-- **Remote subsetting = numpy indexing, every basic index, with or without a hyperslab in the URL**: for every DAP2
+    type, shape, values, URL pre-constraint (any strides) and every index tuple of integers, slices and at most one
+    Ellipsis (short tuples included) in the property's domain — (1) the source positions the server's answer holds are
+    numpy's, axis by axis, an integer entry keeping its axis with the single position it addresses; (2) the client
+    decodes exactly numpy's `source[pre][idx]` with integer axes kept — shape and values — and nothing is left unread. -/
+theorem C02_remote_subsetting (ty : Xdr.Ty) (shape : List Nat) (vals : List Xdr.Val) (pre : List PSlice)
+    (idx : List Idx) (hw : E2E.WFArr ty shape vals) (hpl : pre.length ≤ shape.length)
+    (h1 : AtMostOneEll idx) (hl : explicitAxes idx ≤ shape.length)
+    (hv : ValidList shape (padPre pre shape.length) (npExpandIdx idx shape.length)) :
+    (∃ R, remoteIndex shape pre idx = .ok R ∧
+      R.map (List.map some) = specList shape (padPre pre shape.length) (npExpandIdx idx shape.length)) ∧
+    (∃ cshape vs,
+      E2E.numpyIndex shape vals (padPre pre shape.length) (npExpandIdx idx shape.length) = some (cshape, vs) ∧
+      E2E.fetchArray ty shape vals pre idx = .ok (E2E.dataOf cshape vs, [])) := by
+  rcases basic_cases idx h1 with ⟨h2, he, hne, hx⟩ | ⟨a, b, hs, he, ha, hb, hx⟩
+  · have hE : npExpandIdx idx shape.length = npExpand idx none shape.length := by
+      unfold npExpandIdx; rw [h2, ← he]
+    rw [hE] at hv ⊢
+    rw [hx] at hl
+    exact ⟨C02_preconstraint shape pre idx hpl hne hl hv, C02_e2e_array ty shape vals pre idx hw hpl hne hl hv⟩
+  · have hE : npExpandIdx idx shape.length = npExpand a (some b) shape.length := by
+      unfold npExpandIdx; rw [hs]
+    rw [hE] at hv ⊢
+    rw [hx] at hl
+    rw [he]
+    exact ⟨C02_preconstraint_ellipsis shape pre a b hpl ha hb hl hv,
+      C02_e2e_array_ellipsis ty shape vals pre a b hw hpl ha hb hl hv⟩
+
+/-- **every integer entry keeps its axis with length one, every slice entry has numpy's length** — the shape the
+    client sees, read off the same statement: axis `j` of the answer has as many positions as numpy's selection of
+    entry `j` on the pre-sliced axis (1 for an integer). -/
+theorem C02_answer_shape (shape : List Nat) (pre : List PSlice) (idx : List Idx)
+    (hpl : pre.length ≤ shape.length) (h1 : AtMostOneEll idx) (hl : explicitAxes idx ≤ shape.length)
+    (hv : ValidList shape (padPre pre shape.length) (npExpandIdx idx shape.length)) :
+    ∃ R, remoteIndex shape pre idx = .ok R ∧
+      R.map List.length = (specList shape (padPre pre shape.length) (npExpandIdx idx shape.length)).map List.length := by
+  rcases basic_cases idx h1 with ⟨h2, he, hne, hx⟩ | ⟨a, b, hs, he, ha, hb, hx⟩
+  · have hE : npExpandIdx idx shape.length = npExpand idx none shape.length := by
+      unfold npExpandIdx; rw [h2, ← he]
+    rw [hE] at hv ⊢
+    rw [hx] at hl
+    obtain ⟨R, hR, hS⟩ := C02_preconstraint shape pre idx hpl hne hl hv
+    exact ⟨R, hR, by rw [← hS]; simp [Function.comp_def]⟩
+  · have hE : npExpandIdx idx shape.length = npExpand a (some b) shape.length := by
+      unfold npExpandIdx; rw [hs]
+    rw [hE] at hv ⊢
+    rw [hx] at hl
+    rw [he]
+    obtain ⟨R, hR, hS⟩ := C02_preconstraint_ellipsis shape pre a b hpl ha hb hl hv
+    exact ⟨R, hR, by rw [← hS]; simp [Function.comp_def]⟩
+
+/-- **the server accepts what the client asks for**: `apply_projection` rejects, before it slices, a hyperslab that
+    `check_hyperslab` finds outside the array (fix 153ff3f; `Handler.validSl` is C15's model of it: start inside the axis,
+    start < stop, stride ≥ 1, a stop beyond the extent allowed) — `serveSlab` in `remoteIndex` has no such guard.  On the
+    property's domain the guard never fires: the request has exactly one slice per axis, and every one of them passes the
+    check on the source axis it addresses.  (So the positions theorem speaks about requests the real server does slice.) -/
+theorem C02_request_passes_check_hyperslab (shape : List Nat) (pre : List PSlice) (idx : List Idx)
+    (hpl : pre.length ≤ shape.length) (h1 : AtMostOneEll idx) (hl : explicitAxes idx ≤ shape.length)
+    (hv : ValidList shape (padPre pre shape.length) (npExpandIdx idx shape.length)) :
+    (reqList shape (padPre pre shape.length) (npExpandIdx idx shape.length)).length = shape.length ∧
+    ∀ (j : Nat) (hj : j < shape.length), ∃ r,
+      (reqList shape (padPre pre shape.length) (npExpandIdx idx shape.length))[j]? = some r ∧
+      Handler.validSl shape[j] r = true := by
+  refine ⟨?_, request_list_accepted shape _ _ hv⟩
+  have hlen := validList_length hv
+  clear h1 hl hpl
+  generalize padPre pre shape.length = P at hv hlen
+  generalize npExpandIdx idx shape.length = E at hv hlen
+  induction shape generalizing P E with
+  | nil => cases P <;> cases E <;> simp_all [reqList]
+  | cons n ns ih =>
+    cases P with
+    | nil => simp at hlen
+    | cons p ps => cases E with
+      | nil => simp at hlen
+      | cons e es =>
+        simp only [reqList, List.length_cons, Nat.add_right_cancel_iff]
+        exact ih ps es hv.2.2 ⟨by simpa using hlen.1, by simpa using hlen.2⟩
+
+/-- one axis: the request for `x[1::3]` on 2 elements (`1:3:3`, last index beyond the extent) passes the check; an
+    inverted or out-of-range request — what an EMPTY selection would produce, outside the domain — does not -/
+example : Handler.validSl 2 (reqAxis 2 PSlice.all (Idx.sl ⟨some 1, none, some 3⟩)) = true ∧
+    Handler.validSl 5 ⟨some 3, some 2, some 1⟩ = false ∧ Handler.validSl 5 ⟨some 5, some 10, some 1⟩ = false := by
+  decide
+
+/-- **(4) grids, every basic key, `output_grid` on and off, with or without URL hyperslab — one statement**: `grid[key]`
+    fetches the array, whose value is numpy's `array[pre][key]` (with `output_grid=False` that is the only request);
+    and for EVERY axis `j`, with `e` entry `j` of numpy's expansion of the key: either map `j` is fetched and its value is
+    numpy's `map_j[pre_j][e]` (integer entries keep the axis) — every axis the key reaches, all axes when the key has an
+    Ellipsis — or the key does not reach axis `j` (`e` is the full slice numpy pads with) and map `j` is not fetched: it
+    stays the proxy it was, carrying `pre_j` (reading it is `C02_remote_subsetting` on a rank-1 array).  So the maps are
+    sliced along the matching axes, never along another one. -/
+theorem C02_grid_subsetting (ty : Xdr.Ty) (shape : List Nat) (vals : List Xdr.Val)
+    (maps : List (Xdr.Ty × List Xdr.Val)) (pre : List PSlice) (key : List Idx)
+    (hw : E2E.WFArr ty shape vals) (hm : maps.length = shape.length)
+    (hwm : ∀ j (h1 : j < maps.length) (h2 : j < shape.length), E2E.WFArr maps[j].1 [shape[j]] maps[j].2)
+    (hpl : pre.length ≤ shape.length) (h1 : AtMostOneEll key) (hl : explicitAxes key ≤ shape.length)
+    (hv : ValidList shape (padPre pre shape.length) (npExpandIdx key shape.length)) :
+    (∃ cshape vs,
+      E2E.numpyIndex shape vals (padPre pre shape.length) (npExpandIdx key shape.length) = some (cshape, vs) ∧
+      (E2E.fetchGrid true ty shape vals maps pre key)[0]? = some (0, .ok (E2E.dataOf cshape vs, [])) ∧
+      E2E.fetchGrid false ty shape vals maps pre key = [(0, .ok (E2E.dataOf cshape vs, []))]) ∧
+    ∀ j, j < shape.length → ∃ n m p e, shape[j]? = some n ∧ maps[j]? = some m ∧
+      (padPre pre shape.length)[j]? = some p ∧ (npExpandIdx key shape.length)[j]? = some e ∧
+      ((∃ cs vs, E2E.numpyIndex [n] m.2 [p] [e] = some (cs, vs) ∧
+          (E2E.fetchGrid true ty shape vals maps pre key)[j + 1]? = some (j + 1, .ok (E2E.dataOf cs vs, []))) ∨
+       ((E2E.fetchGrid true ty shape vals maps pre key)[j + 1]? = none ∧ e = Idx.sl PSlice.all)) := by
+  have hlenv := validList_length hv
+  have hPl : (padPre pre shape.length).length = shape.length := padPre_length pre _ hpl
+  rcases basic_cases key h1 with ⟨h2, he, hne, hx⟩ | ⟨a, b, hs, he, ha, hb, hx⟩
+  · have hE : npExpandIdx key shape.length = npExpand key none shape.length := by
+      unfold npExpandIdx; rw [h2, ← he]
+    rw [hE] at hv hlenv ⊢
+    rw [hx] at hl
+    obtain ⟨hlen, ⟨cs, vs, hn, hf⟩, hmaps⟩ := C02_e2e_grid ty shape vals maps pre key hw hm hwm hpl hne hl hv
+    refine ⟨⟨cs, vs, hn, hf, ?_⟩, ?_⟩
+    · obtain ⟨cs', vs', hn', hf'⟩ := C02_e2e_grid_array_only ty shape vals maps pre key hw hpl hne hl hv
+      rw [hn] at hn'; cases hn'; exact hf'
+    · intro j hj
+      have hjm : j < maps.length := by omega
+      have hjE : j < (npExpand key none shape.length).length := by rw [hlenv.2]; exact hj
+      refine ⟨shape[j], maps[j], (padPre pre shape.length)[j]'(by omega), (npExpand key none shape.length)[j],
+        List.getElem?_eq_getElem hj, List.getElem?_eq_getElem hjm, List.getElem?_eq_getElem (by omega),
+        List.getElem?_eq_getElem hjE, ?_⟩
+      by_cases hjk : j < key.length
+      · left
+        have hEj : (npExpand key none shape.length)[j] = key[j] := by
+          simp [npExpand, List.getElem_append_left, hjk]
+        obtain ⟨cs', vs', hn', hf'⟩ := hmaps j hjk
+        rw [hEj]
+        exact ⟨cs', vs', hn', hf'⟩
+      · right
+        refine ⟨List.getElem?_eq_none (by omega), ?_⟩
+        simp [npExpand, List.getElem_append_right (Nat.le_of_not_lt hjk)]
+  · have hE : npExpandIdx key shape.length = npExpand a (some b) shape.length := by
+      unfold npExpandIdx; rw [hs]
+    rw [hE] at hv hlenv ⊢
+    rw [hx] at hl
+    subst he
+    obtain ⟨⟨cs, vs, hn, hf⟩, hmaps⟩ := C02_e2e_grid_ellipsis ty shape vals maps pre a b hw hm hwm hpl ha hb hl hv
+    refine ⟨⟨cs, vs, hn, hf, ?_⟩, ?_⟩
+    · obtain ⟨cs', vs', hn', hf'⟩ := C02_e2e_array_ellipsis ty shape vals pre a b hw hpl ha hb hl hv
+      rw [hn] at hn'; cases hn'
+      rw [E2E.fetchGrid_off, hf']
+    · intro j hj
+      have hjm : j < maps.length := by omega
+      have hjE : j < (npExpand a (some b) shape.length).length := by rw [hlenv.2]; exact hj
+      obtain ⟨cs', vs', hn', hf'⟩ := hmaps j hj
+      exact ⟨shape[j], maps[j], (padPre pre shape.length)[j]'(by omega), (npExpand a (some b) shape.length)[j],
+        List.getElem?_eq_getElem hj, List.getElem?_eq_getElem hjm, List.getElem?_eq_getElem (by omega),
+        List.getElem?_eq_getElem hjE, Or.inl ⟨cs', vs', hn', hf'⟩⟩
+
+/-- both branches of the per-axis alternative occur: `g[1]` on the 2×3 example grid fetches map 0 and leaves map 1
+    (entry 1 of numpy's expansion is the full slice; the result has 2 children, so child 2 is absent) -/
+example : npExpandIdx [Idx.int 1] 2 = [Idx.int 1, Idx.sl PSlice.all] ∧ AtMostOneEll [Idx.int 1] ∧
+    explicitAxes [Idx.int 1] = 1 := by
+  refine ⟨rfl, ?_, rfl⟩
+  intro b hb; simp [splitEll] at hb
+
+/-- non-vacuity of the composed statement: `x[..., -1]` and `x[1]` and `x[0, ..., ::2]` are basic indices; two
+    Ellipses are not; numpy's expansion on rank 3 -/
+example : AtMostOneEll [Idx.ell, Idx.int (-1)] ∧ AtMostOneEll [Idx.int 1] ∧
+    AtMostOneEll [Idx.int 0, Idx.ell, Idx.sl ⟨none, none, some 2⟩] ∧ ¬ AtMostOneEll [Idx.ell, Idx.ell] ∧
+    explicitAxes [Idx.int 0, Idx.ell, Idx.sl ⟨none, none, some 2⟩] = 2 ∧
+    npExpandIdx [Idx.int 0, Idx.ell, Idx.sl ⟨none, none, some 2⟩] 3
+      = [Idx.int 0, Idx.sl PSlice.all, Idx.sl ⟨none, none, some 2⟩] ∧
+    npExpandIdx [Idx.int 1] 3 = [Idx.int 1, Idx.sl PSlice.all, Idx.sl PSlice.all] := by
+  refine ⟨?_, ?_, ?_, ?_, rfl, rfl, rfl⟩
+  · intro b hb; simp [splitEll] at hb; subst hb; intro x hx; simp at hx; subst hx; simp
+  · intro b hb; simp [splitEll] at hb
+  · intro b hb; simp [splitEll] at hb; subst hb; intro x hx; simp at hx; subst hx; simp
+  · intro h; exact h [Idx.ell] rfl Idx.ell (by simp) rfl
+/-- … and the rank-3 example above (`x[..., -1]`, stride in the URL on the last axis) is in its domain -/
+example : ValidList [2, 3, 6] (padPre [PSlice.all, PSlice.all, ⟨some 1, some 6, some 2⟩] 3)
+    (npExpandIdx [Idx.ell, Idx.int (-1)] 3) := by
+  refine ⟨nonNeg_all, ⟨by simp [PSlice.all], by simp [PSlice.all], by simp [PSlice.all], by decide⟩,
+    nonNeg_all, ⟨by simp [PSlice.all], by simp [PSlice.all], by simp [PSlice.all], by decide⟩,
+    ⟨by simp, by simp, by simp⟩, ⟨by decide, by decide⟩, trivial⟩
 
 /-! ### the tie by translation: the *source text* of `pad_hyperslab` and of the projection `BaseProxyDap2.__getitem__` sends
 
